@@ -3,6 +3,7 @@ package keeper
 import (
 	"encoding/hex"
 	"fmt"
+	"slices"
 
 	sdkmath "cosmossdk.io/math"
 	storetypes "cosmossdk.io/store/types"
@@ -41,8 +42,12 @@ func (k Keeper) Attest(ctx sdk.Context, oracleAddr sdk.AccAddress, claim types.E
 		}
 	}
 
-	// Add the oracle's vote to this attestation
-	att.Votes = append(att.Votes, oracleAddr.String())
+	// Add the oracle's vote to this attestation, an oracle is counted at most once:
+	// an oracle that unbonded and bonded again starts over from the last observed event nonce
+	// and may meet a pending attestation that still carries its earlier vote
+	if !slices.Contains(att.Votes, oracleAddr.String()) {
+		att.Votes = append(att.Votes, oracleAddr.String())
+	}
 	k.SetAttestation(ctx, claim.GetEventNonce(), claim.ClaimHash(), att)
 
 	if !att.Observed && claim.GetEventNonce() == k.GetLastObservedEventNonce(ctx)+1 {
